@@ -416,3 +416,235 @@ Proof.
       | intros X; discriminate X ].
 Qed.
 Print Assumptions stmt_heights6.
+
+(* ================================================================== *)
+(* the enclosing compiler (one level: the script) is untouched except for `is_captured` flags *)
+Definition op {A} (m : C A) : Prop := forall s a s', m s = COk (a, s') -> s_outer s' = s_outer s.
+
+Lemma op_ret {A} (a : A) : op (cret a). Proof. intros s x s' H. inversion H; auto. Qed.
+Lemma op_err {A} l msg : op (@cerr A l msg). Proof. intros s x s' H. discriminate. Qed.
+Lemma op_err_here {A} msg : op (@cerr_here A msg). Proof. intros s x s' H. discriminate. Qed.
+Lemma op_bind {A B} (m : C A) (k : A -> C B) : op m -> (forall a, op (k a)) -> op (cbind m k).
+Proof.
+  intros Hm Hk s b s' H. unfold cbind in H. destruct (m s) as [[a s1]|] eqn:E; [|discriminate].
+  rewrite (Hk _ _ _ _ H). eapply Hm; eauto.
+Qed.
+Lemma op_upd f : op (upd f). Proof. intros s a s' H. inversion H; auto. Qed.
+Lemma op_cur : op cur. Proof. intros s a s' H. inversion H; auto. Qed.
+Lemma op_cget : op cget. Proof. intros s a s' H. inversion H; auto. Qed.
+Lemma op_code_len : op code_len. Proof. intros s a s' H. inversion H; auto. Qed.
+Lemma op_in_class : op in_class. Proof. intros s a s' H. inversion H; auto. Qed.
+Lemma op_set_line l : op (set_line l). Proof. intros s a s' H. inversion H; auto. Qed.
+Lemma op_cwhen b m : op m -> op (cwhen b m). Proof. intros. destruct b; simpl; auto. apply op_ret. Qed.
+
+Create HintDb opdb.
+#[export] Hint Resolve op_ret op_err op_err_here op_upd op_cur op_cget op_code_len op_in_class op_set_line op_cwhen : opdb.
+Ltac opt :=
+  repeat first
+    [ apply op_bind; [|intros ?]
+    | match goal with
+      | |- op (if ?b then _ else _) => destruct b
+      | |- op (match ?x with _ => _ end) => destruct x
+      end
+    | solve [eauto with opdb] ].
+
+Lemma op_emit_byte b l : op (emit_byte b l). Proof. unfold emit_byte. opt. Qed.
+#[export] Hint Resolve op_emit_byte : opdb.
+Lemma op_emit_op o l : op (emit_op o l). Proof. unfold emit_op. opt. Qed.
+#[export] Hint Resolve op_emit_op : opdb.
+Lemma op_emit_op8 o n l : op (emit_op8 o n l). Proof. unfold emit_op8. opt. Qed.
+Lemma op_emit_u16 n l : op (emit_u16 n l). Proof. unfold emit_u16. opt. Qed.
+#[export] Hint Resolve op_emit_op8 op_emit_u16 : opdb.
+Lemma op_emit_op16 o n l : op (emit_op16 o n l). Proof. unfold emit_op16. opt. Qed.
+#[export] Hint Resolve op_emit_op16 : opdb.
+Lemma op_emit_variable_op o a l : op (emit_variable_op o a l). Proof. unfold emit_variable_op. opt. Qed.
+Lemma op_emit_jump o l : op (emit_jump o l). Proof. unfold emit_jump. opt. Qed.
+Lemma op_patch16 p v : op (patch16 p v). Proof. unfold patch16. opt. Qed.
+#[export] Hint Resolve op_emit_variable_op op_emit_jump op_patch16 : opdb.
+Lemma op_patch_jump p : op (patch_jump p). Proof. unfold patch_jump. opt. Qed.
+Lemma op_emit_loop p l : op (emit_loop p l). Proof. unfold emit_loop. opt. Qed.
+Lemma op_make_constant c : op (make_constant c). Proof. unfold make_constant. opt. Qed.
+#[export] Hint Resolve op_patch_jump op_emit_loop op_make_constant : opdb.
+Lemma op_identifier_constant x : op (identifier_constant x). Proof. unfold identifier_constant. opt. Qed.
+Lemma op_emit_constant c l : op (emit_constant c l). Proof. unfold emit_constant. opt. Qed.
+Lemma op_begin_scope : op begin_scope. Proof. unfold begin_scope. opt. Qed.
+Lemma op_emit_ops ops l : op (emit_ops ops l). Proof. induction ops; simpl; opt. Qed.
+#[export] Hint Resolve op_identifier_constant op_emit_constant op_begin_scope op_emit_ops : opdb.
+Lemma op_emit_scope_end b d l : op (emit_scope_end b d l). Proof. unfold emit_scope_end. opt. Qed.
+#[export] Hint Resolve op_emit_scope_end : opdb.
+Lemma op_end_scope l : op (end_scope l). Proof. unfold end_scope. opt. Qed.
+Lemma op_add_local x : op (add_local x). Proof. unfold add_local. opt. Qed.
+Lemma op_mark_last : op mark_last_initialised. Proof. unfold mark_last_initialised. opt. Qed.
+#[export] Hint Resolve op_end_scope op_add_local op_mark_last : opdb.
+Lemma op_mark_initialised : op mark_initialised. Proof. unfold mark_initialised. opt. Qed.
+Lemma op_mark_slot n : op (mark_initialised_slot n). Proof. unfold mark_initialised_slot. opt. Qed.
+Lemma op_declare_variable x l : op (declare_variable x l). Proof. unfold declare_variable. opt. Qed.
+#[export] Hint Resolve op_mark_initialised op_mark_slot op_declare_variable : opdb.
+Lemma op_parse_variable x l : op (parse_variable x l). Proof. unfold parse_variable. opt. Qed.
+Lemma op_define_variable g l : op (define_variable g l). Proof. unfold define_variable. opt. Qed.
+Lemma op_push_loop : op push_loop. Proof. unfold push_loop. opt. Qed.
+Lemma op_push_break p : op (push_break p). Proof. unfold push_break. opt. Qed.
+Lemma op_patch_jumps ps : op (patch_jumps ps).
+Proof. induction ps; cbn [patch_jumps]. apply op_ret. apply op_bind. apply op_patch_jump. intros; exact IHps. Qed.
+#[export] Hint Resolve op_parse_variable op_define_variable op_push_loop op_push_break op_patch_jumps : opdb.
+Lemma op_pop_loop : op pop_loop. Proof. unfold pop_loop. opt. Qed.
+Lemma op_exc_pops d l : op (emit_exc_handler_pops d l). Proof. unfold emit_exc_handler_pops. opt. Qed.
+Lemma op_check_count n l msg : op (check_count n l msg). Proof. unfold check_count. opt. Qed.
+Lemma op_emit_compound o l : op (emit_compound o l). Proof. unfold emit_compound. opt. Qed.
+Lemma op_emit_return l : op (emit_return l). Proof. unfold emit_return. opt. Qed.
+#[export] Hint Resolve op_pop_loop op_exc_pops op_check_count op_emit_compound op_emit_return : opdb.
+
+(* with one enclosing compiler e: it stays, up to captured flags *)
+Definition ceq (e e' : comp) : Prop := tweak e e' /\ ctl e' = ctl e /\ lks e' = lks e.
+Lemma ceq_refl e : ceq e e. Proof. split; [constructor; reflexivity | auto]. Qed.
+Lemma ceq_trans a b c : ceq a b -> ceq b c -> ceq a c.
+Proof.
+  intros ([] & A2 & A3) ([] & B2 & B3). split; [constructor; congruence | split; congruence].
+Qed.
+
+Definition fr2 {A} (m : C A) : Prop :=
+  forall s a s' e, s_outer s = [e] -> m s = COk (a, s') -> exists e', s_outer s' = [e'] /\ ceq e e'.
+
+Lemma fr2_of_op {A} (m : C A) : op m -> fr2 m.
+Proof. intros H s a s' e Ho E. exists e. rewrite (H _ _ _ E). split; auto using ceq_refl. Qed.
+Lemma fr2_bind {A B} (m : C A) (k : A -> C B) : fr2 m -> (forall a, fr2 (k a)) -> fr2 (cbind m k).
+Proof.
+  intros Hm Hk s b s' e Ho H. unfold cbind in H. destruct (m s) as [[a s1]|] eqn:E; [|discriminate].
+  destruct (Hm _ _ _ _ Ho E) as (e1 & O1 & C1). destruct (Hk _ _ _ _ _ O1 H) as (e2 & O2 & C2).
+  exists e2. split; auto. eapply ceq_trans; eauto.
+Qed.
+
+Lemma capture_at_keys n ls : map lkey (capture_at n ls) = map lkey ls.
+Proof. revert n. induction ls as [|l r IH]; intros [|n]; simpl; auto. rewrite IH. reflexivity. Qed.
+
+Lemma fr2_resolve_variable x l : fr2 (resolve_variable x l).
+Proof.
+  intros s r s' e Ho. unfold resolve_variable, cbind, cur. cbv beta.
+  destruct (resolve_local_c (s_cur s) x).
+  - intros H; inversion H; subst. exists e. split; auto using ceq_refl.
+  - discriminate.
+  - unfold cget. cbv beta. rewrite Ho. cbn [resolve_upvalue_in].
+    destruct (resolve_local_c e x) eqn:El.
+    + destruct (add_upvalue (s_cur s) (N.of_nat i) true) as [[u c1]|]; [|simpl; intros H; discriminate H].
+      simpl. intros H; inversion H; subst; clear H. simpl. eexists. split; [reflexivity|].
+      split; [constructor; reflexivity|]. split; [reflexivity|].
+      unfold lks, capture_slot. simpl. apply capture_at_keys.
+    + cbv beta. unfold set_line. cbn [s_cur s_outer s_classes].
+      destruct (identifier_constant x _) as [[g s1]|] eqn:E3; [|discriminate].
+      unfold cret; cbv beta. intros H; inversion H; subst; clear H. apply op_identifier_constant in E3. simpl in E3.
+      exists e. rewrite E3, Ho. split; auto using ceq_refl.
+    + cbv beta. unfold set_line. cbn [s_cur s_outer s_classes].
+      destruct (identifier_constant x _) as [[g s1]|] eqn:E3; [|discriminate].
+      unfold cret; cbv beta. intros H; inversion H; subst; clear H. apply op_identifier_constant in E3. simpl in E3.
+      exists e. rewrite E3, Ho. split; auto using ceq_refl.
+Qed.
+
+Create HintDb frdb.
+Lemma fr2_named_get x l : fr2 (named_get x l).
+Proof.
+  unfold named_get. apply fr2_bind. apply fr2_resolve_variable. intros [[g st] a]. apply fr2_of_op. auto with opdb.
+Qed.
+#[export] Hint Resolve fr2_resolve_variable fr2_named_get : frdb.
+#[export] Hint Extern 3 (fr2 _) => apply fr2_of_op; solve [eauto with opdb] : frdb.
+Ltac frt :=
+  repeat first
+    [ solve [eauto with frdb]
+    | match goal with
+      | |- fr2 (if ?b then _ else _) => destruct b
+      | |- fr2 (match ?x with _ => _ end) => destruct x
+      | |- fr2 (cbind _ _) => apply fr2_bind; [|intros ?]
+      end ].
+
+Theorem frame_outer :
+  (forall e, fragE e = true -> fr2 (cexpr e)) /\
+  (forall es, fragA es = true -> fr2 (cargs es)) /\
+  (forall ps, fragP ps = true -> fr2 (cparts ps)) /\
+  (forall kvs, fragK kvs = true -> fr2 (ckvs kvs)) /\
+  (forall st, fragS6 st = true -> fr2 (cstmt st)) /\
+  (forall l, fragSs6 l = true -> fr2 (cstmts l)) /\
+  (forall ms : lmethods, True).
+Proof.
+  apply lsyntax_mutind; try (intros; exact I);
+    repeat lazymatch goal with |- forall _, _ => intro end; simpl in * |-; andbs;
+    repeat match goal with H : okE _ = true |- _ => apply okE_spec in H; destruct H end;
+    try discriminate; simpl; frt.
+Qed.
+Print Assumptions frame_outer.
+
+(* ================================================================== *)
+(* pieces of the function-level step                                    *)
+Definition fn_ok (h : func) : Prop :=
+  exists G, G <> [] /\ f_code h = flat G /\ noholes G /\
+            (forall H', gok (f_consts h) (f_upvalues h) (f_arity h) G H') /\ hdh G 0%N = f_arity h /\
+            (forall i k, nth_error (f_consts h) i = Some (KFun k) -> False).
+
+Lemma const_index_fun tbl f : const_index tbl (KFun f) = None.
+Proof.
+  induction tbl as [|d r IH]; simpl; auto. replace (const_eqb d (KFun f)) with false by (destruct d; reflexivity).
+  rewrite IH. reflexivity.
+Qed.
+
+Lemma emits_upvalues us l : emits (emit_upvalues us l) (enc_uvs us).
+Proof.
+  induction us as [|[i il] us IH]; simpl.
+  - intros s a s' H. inversion H as [[Ha Hs]]. subst s'. split; [|split]; auto. exists (k_lines (s_cur s)).
+    rewrite app_nil_r. destruct (s_cur s); reflexivity.
+  - apply (emits_bind _ _ [_] (_ :: _)). apply emits_byte. intros _.
+    apply (emits_bind _ _ [_] _). apply emits_byte. intros _. exact IH.
+Qed.
+
+(* emit_closure on a compiler whose annotation is g: the function constant is appended, the Closure instruction
+   (with its descriptors) extends the annotation by one instruction, H -> H+1 *)
+Lemma emit_closure_post fu us l s u s' g H :
+  emit_closure (fu, us) l s = COk (u, s') -> CInv (s_cur s) g H -> (H <= STACK_MAX)%N ->
+  f_upvalues fu = N.of_nat (length us) ->
+  exists gi, g_op gi = OpClosure /\ g_hole gi = false /\
+             CInv (s_cur s') (g ++ [gi]) (H + 1)%N /\ Lext (hat g H) (hat (g ++ [gi]) (H + 1)%N) /\
+             k_consts (s_cur s') = k_consts (s_cur s) ++ [KFun fu] /\ cframe (s_cur s) (s_cur s') /\
+             s_outer s' = s_outer s.
+Proof.
+  intros E HI Hm Hu. unfold emit_closure, cbind in E. cbn [fst snd] in E.
+  destruct (make_constant (KFun fu) s) as [[i s1]|] eqn:E1; [|discriminate].
+  unfold make_constant, cbind, cur in E1. rewrite const_index_fun in E1. unfold upd in E1.
+  cbn [s_cur s_outer s_classes s_line] in E1.
+  destruct (N.ltb 65535 (N.of_nat (length (k_consts (s_cur s))))); [discriminate|].
+  inversion E1; subst i s1; clear E1.
+  set (s1 := mkS (with_consts (s_cur s) (k_consts (s_cur s) ++ [KFun fu])) (s_outer s) (s_classes s) (s_line s)) in *.
+  set (gi := mkG OpClosure (N.of_nat (length (k_consts (s_cur s)))) 0 us H false).
+  assert (HI1 : CInv (s_cur s1) g H).
+  { destruct HI as [Hc Hg]. constructor. exact Hc. unfold s1. cbn [s_cur k_consts k_arity with_consts].
+    unfold nupN. cbn [k_upvalues with_consts]. eapply gok_mono; [apply N.le_refl | exact Hg]. }
+  assert (Hem : emitted (enc gi) s1 s').
+  { assert (X : emits (emit_op16 OpClosure (N.of_nat (length (k_consts (s_cur s)))) l;;; emit_upvalues us l)
+                      ([N_of_opcode OpClosure; lo8 (N.of_nat (length (k_consts (s_cur s))));
+                        hi8 (N.of_nat (length (k_consts (s_cur s))))] ++ enc_uvs us)).
+    { apply emits_bind. apply emits_op16. intros _. apply emits_upvalues. }
+    exact (X s1 u s' E). }
+  assert (Hi : iok (hat (g ++ [gi]) (H + 1)%N) (k_consts (s_cur s1)) (nupN (s_cur s1)) (k_arity (s_cur s1)) (flen g) gi).
+  { split; [exact Hm|]. simpl. split; [reflexivity|]. split.
+    - exists fu. split; [|exact Hu]. rewrite Nat2N.id, nth_error_app2, Nat.sub_diag; auto.
+    - apply hat_snoc_end. }
+  pose proof (emit_post s1 s' g H gi (H + 1)%N Hem HI1 eq_refl Hi) as P.
+  destruct (emitted_facts _ _ _ Hem) as (F1 & F2 & F3 & F4 & F5 & F6).
+  exists gi. split; [reflexivity|]. split; [reflexivity|]. split; [apply P|]. split; [apply P|].
+  split; [rewrite F2; reflexivity|]. split.
+  - eapply cframe_trans; [|exact F5]. unfold s1. constructor; reflexivity.
+  - destruct Hem as (_ & O & _). rewrite O. reflexivity.
+Qed.
+Print Assumptions emit_closure_post.
+
+(* emit_return in a function body (kind KFunction): Nil; Return *)
+Lemma emit_return_fn l s u s' g H :
+  emit_return l s = COk (u, s') -> CInv (s_cur s) g H -> k_kind (s_cur s) = KFunction -> k_in_try (s_cur s) = false ->
+  (H + 1 <= STACK_MAX)%N ->
+  forall H', CInv (s_cur s') (g ++ [mkG OpNil 0 0 [] H false; mkG OpReturn 0 0 [] (H + 1)%N false]) H'.
+Proof.
+  intros E HI Hk Ht Hm H'. pose proof (post_refl _ _ _ HI) as P0. revert u s' E.
+  change (wp (emit_return l) s (fun _ s' => CInv (s_cur s') (g ++ [mkG OpNil 0 0 [] H false; mkG OpReturn 0 0 [] (H + 1)%N false]) H')).
+  unfold emit_return. apply wp_bind. apply wp_cur. rewrite Hk, Ht. simpl.
+  op0. bnd. apply wp_ret.
+  eapply wp_emit with (gi := mkG OpReturn 0 0 [] (H + 1)%N false) (H' := H');
+    [ apply emits_op | eassumption | simpl; lia | split; [simpl; lia | simpl; split; [reflexivity | lia]]
+    | intros ? ?s ?P ?G ?F ?O ?Cl ].
+  pose proof (po_inv _ _ _ _ _ _ P1) as X. simpl in X. rewrite <- ?app_assoc in X. exact X.
+Qed.
